@@ -19,6 +19,7 @@ type punctuatedReader struct {
 	nextSegment    []byte
 	thisSegment    []byte
 	errThisSegment error
+	errRead        error // an error of the underlying reader that arrived together with data
 	buf            [4096]byte
 }
 
@@ -56,9 +57,18 @@ func (p *punctuatedReader) Read(out []byte) (n int, err error) {
 		usedBuffer = true
 		p.nextSegment = nil
 	} else {
+		if p.errRead != nil {
+			return 0, p.errRead
+		}
 		n, err = p.r.Read(out)
 		if err != nil {
-			return n, err
+			if n == 0 {
+				return 0, err
+			}
+			// The data still has to be scanned for punctuation; report the
+			// error once all of it has been delivered.
+			p.errRead = err
+			err = nil
 		}
 		src = out[0:n]
 	}
